@@ -21,7 +21,7 @@ func init() {
 			"(6) second level: the errors ReplayWALFile itself returns while handling a damaged record are classified 'skip this file' by ReplayWALDir's predicates (substring or errors.Is against a sentinel the error wraps); no read after the first of a record can leave readRecord as a clean io.EOF. " +
 			"Added after blind round 5: ReadEntry answers an explicit io.EOF only behind err == io.EOF.",
 		NotDecided: "the set of entries delivered for each truncation offset / corruption position (enumeration: a different family); that resynchronisation after skipping 32 KB finds a record boundary.",
-		Rules:      []func(*Ctx, *Reporter){ruleWalErrorClasses, ruleDestructiveOps, ruleReuseValidatesTail, ruleWalCRC, ruleNoFabrication},
+		Rules:      []func(*Ctx, *Reporter){ruleWalErrorClasses, ruleDestructiveOps, ruleReuseValidatesTail, ruleWalCRC, ruleNoFabrication, ruleLogExistsBeforeRecovery},
 	})
 }
 
